@@ -65,7 +65,7 @@ func init() {
 		},
 		Cases: func(tier string) int {
 			if tier == "thorough" {
-				return 3000
+				return 2000
 			}
 			return 250
 		},
